@@ -126,7 +126,11 @@ def eq(a, b, rtol=1e-14):
     a, b = np.asarray(a, float), np.asarray(b, float)
     if a.shape != b.shape:
         return False
-    return bool(np.all(np.abs(a - b) <= rtol * np.maximum(np.abs(a), np.abs(b))))
+    fin = np.isfinite(a) & np.isfinite(b)
+    if not np.all(fin | (a == b) | (np.isnan(a) & np.isnan(b))):
+        return False  # an infinite value only equals the same infinity (|inf - x| <= rtol * inf would accept anything)
+    with np.errstate(invalid="ignore"):
+        return bool(np.all(~fin | (np.abs(a - b) <= rtol * np.maximum(np.abs(a), np.abs(b)))))
 
 
 def run_factory_order(case, ctx):
